@@ -723,6 +723,11 @@ class Table(Vector):
 			row_spec = key
 			col_spec = slice(None)
 
+		if isinstance(row_spec, Vector):
+			# The selector may be one of the columns written below (t[t.flag, ['flag', 'x']] = ...):
+			# fix the addressed rows now, before the first column is rewritten
+			row_spec = row_spec.copy()
+
 		# --- 2. Resolve Target Columns ---
 		# This replicates the lookup logic from __getitem__
 		target_indices = []
